@@ -22,6 +22,10 @@ META = {
 # multiplies the paths of the bar re-quantisation by ~10)
 SHAPES = {
     "n2": [("KS", KEYS[1]), ("ON", 0), "W", ("ON", 1), ("W", 5, 5), ("OFF", 0), ("W", 7, 7), ("OFF", 1), ("W", 3, 3)],
+    # not in normal form: a repeated time signature, two adjacent rests
+    "n2r": [("TS", 4, 4), ("ON", 0), "W", ("ON", 1), ("W", 5, 5), ("OFF", 0), ("TS", 4, 4), ("W", 4, 4), ("W", 3, 3), ("OFF", 1),
+            ("W", 3, 3)],
+    "empty": [],
     "n3": [("ON", 0), "W", ("ON", 1), ("W", 5, 5), ("OFF", 0), ("ON", 2), ("W", 4, 4), ("OFF", 1), ("W", 6, 6),
            ("OFF", 2), ("W", 3, 3)],
 }
@@ -92,6 +96,11 @@ def st_scale(ctx, s):
     s.scale(2, quantise_afterwards=False)
 
 
+def st_scale_half_meta_other(ctx, s):
+    # the other side of the derivation is handed in as the (read-only) meta sequence
+    s.scale(0.5, meta_sequence=ctx.other, quantise_afterwards=False)
+
+
 def st_pad(ctx, s):
     s.pad(ctx.int("st_p", 200, 210))
 
@@ -121,6 +130,7 @@ STEPS = {"transpose": st_transpose, "set_channel": st_set_channel, "edit_rel": s
          "quantise": st_quantise, "quantise_note_lengths": st_qnl, "cutoff": st_cutoff, "scale": st_scale, "pad": st_pad,
          "add_rel": st_add_rel, "add_abs": st_add_abs, "normalise_after_break": st_normalise_after_break,
          "overwrite": st_overwrite}
+ARG_STEPS = {"scale_half_meta_other": st_scale_half_meta_other}
 
 
 def mk_orig(ctx, shape, wmax, fresh):
@@ -242,7 +252,8 @@ def q_indep(route, step, side, shape, wmax):
             ctx.must("library_eq_agrees", all((a == b) is True for a, b in zip(origs, ders)))
         touched, untouched, before = (ders, origs, so) if side == "derived" else (origs, ders, sd)
         # apply the step to the first touched object only; every other object (also sibling pieces) must stay put
-        ok, ex = call(STEPS[step], ctx, touched[0])
+        ctx.other = untouched[0]
+        ok, ex = call(STEPS[step] if step in STEPS else ARG_STEPS[step], ctx, touched[0])
         ctx.note("step_exception", repr(ex) if not ok else None)
         others = untouched + touched[1:]
         bsnaps = before + ([Snap(x) for x in touched[1:]] if False else (sd[1:] if side == "derived" else so[1:]))
@@ -261,6 +272,12 @@ def queries(tier, seed):
         for step in STEPS:
             for side in ("derived", "original"):
                 qs.append(q_indep(route, step, side, "n2", wmax))
+    for route in ("seq_copy_rel", "seq_copy_abs", "seq_copy_both"):
+        for side in ("derived", "original"):
+            qs.append(q_indep(route, "scale_half_meta_other", side, "n2r", 8))
+        for step in ("add_abs", "add_rel", "pad", "transpose"):
+            for side in ("derived", "original"):
+                qs.append(q_indep(route, step, side, "empty", 8))       # a fresh, still empty sequence and its copy
     if tier == "thorough":
         for route in ROUTES:
             for step in STEPS:
